@@ -128,6 +128,9 @@ func Gen(caseID, tier string) (json.RawMessage, error) {
 	r := core.NewRng(n).Derive("c03")
 	tp := Tape{Engine: "c03", RunSeed: n, SessionMgr: r.Chance(1, 2), Logger: r.Chance(2, 3)}
 	tp.Settings.SkewS = int64(r.PickInt(0, 300, 300, 1, 3600))
+	if r.Chance(1, 10) {
+		tp.Settings.SkewS, tp.Settings.SkewMs = int64(r.PickInt(0, 0, 1)), int64(r.PickInt(1, 500, 999))
+	}
 	if r.Chance(1, 5) {
 		tp.Settings.RequireAddr = true
 	}
